@@ -26,6 +26,7 @@ struct RunOut {
     n_calls: u64,
     snaps: Vec<Snap>,
     failed_calls: u64,
+    late_flush_idx: Vec<u64>,
 }
 
 fn snapshot(st: &Stage) -> Result<Snap, String> {
@@ -146,19 +147,19 @@ fn run_once(sc: &Scenario, plan: Option<FaultPlan>, reference: Option<&Vec<Snap>
                 let n = st.term.lock().n_calls;
                 let f = st.term.lock().failed_calls;
                 std::mem::forget(st);
-                return (r, n, snaps, f);
+                return (r, n, snaps, f, vec![]);
             }
         } else {
             // leak rather than risk a double panic while unwinding through poisoned locks
             std::mem::forget(st);
-            return (r, 0, snaps, 0);
+            return (r, 0, snaps, 0, vec![]);
         }
         let t = st.term.lock();
-        (r, t.n_calls, snaps, t.failed_calls)
+        (r, t.n_calls, snaps, t.failed_calls, t.late_flush_idx.clone())
     });
-    let (report, n_calls, snaps, failed_calls) = match res {
-        Some((r, n, s, f)) => (Some(r), n, s, f),
-        None => (None, 0, vec![], 0),
+    let (report, n_calls, snaps, failed_calls, late_flush_idx) = match res {
+        Some((r, n, s, f, l)) => (Some(r), n, s, f, l),
+        None => (None, 0, vec![], 0, vec![]),
     };
     let report = finish_report(report, out);
     RunOut {
@@ -166,6 +167,7 @@ fn run_once(sc: &Scenario, plan: Option<FaultPlan>, reference: Option<&Vec<Snap>
         n_calls,
         snaps,
         failed_calls,
+        late_flush_idx,
     }
 }
 
@@ -177,7 +179,7 @@ impl Check for C18 {
         "fault_enumeration"
     }
     fn rule_text(&self) -> String {
-        "Histories (3..15 quick / 3..30 thorough calls; standalone bars and MultiProgress with siblings; tick/inc/set_message/set_prefix/set_length/set_style/set_tab_width/println/suspend/reset/finish*/force_draw/iterator completion, add/insert*/remove/drop, mp.println/clear/suspend, optional steady ticker + simulated sleeps) are sampled from the seed. For each history the fault-free run counts the terminal calls N; then every index k in 0..N is failed in three modes (only call k fails / call k and all later calls fail / call k fails and each later call fails with probability 1/2, a fixed function of the indices) with rotating errors (io::ErrorKind Other, BrokenPipe, Interrupted, WouldBlock, WriteZero, and errors carrying an OS code: EIO, EPIPE, EINTR, EAGAIN, ENOSPC): exhaustive over (k, mode) per history for k < 250, every 41st index beyond that (one history in twelve ends with 240..300 forced redraws: the program carries on for long after the terminal went away). Oracle: no call panics on any simulated thread; getters (position, length, message, prefix, is_finished) after every call equal the fault-free run; mp.println/mp.clear return Err iff a terminal call failed during them; afterwards every bar, sibling and the MultiProgress are exercised and dropped without panic (a poisoned lock shows there), and a println on a MultiProgress that is not hidden must make terminal calls again (no failure silences the target for good). Non-trivial: history with N >= 3 terminal calls. Distinct = distinct scenario hash; 'executions_including_sub_runs' counts the enumerated fault runs.".into()
+        "Histories (3..15 quick / 3..30 thorough calls; standalone bars and MultiProgress with siblings; tick/inc/set_message/set_prefix/set_length/set_style/set_tab_width/println/suspend/reset/finish*/force_draw/iterator completion, add/insert*/remove/drop, mp.println/clear/suspend, optional steady ticker + simulated sleeps) are sampled from the seed. For each history the fault-free run counts the terminal calls N; then every index k in 0..N is failed in three modes (only call k fails / call k and all later calls fail / call k fails and each later call fails with probability 1/2, a fixed function of the indices) with rotating errors (io::ErrorKind Other, BrokenPipe, Interrupted, WouldBlock, WriteZero, and errors carrying an OS code: EIO, EPIPE, EINTR, EAGAIN, ENOSPC): exhaustive over (k, mode) per history for k < 250, every 41st index and every flush call beyond that (one history in sixty prints a text of 130..400 lines; one history in twelve ends with 240..300 forced redraws: the program carries on for long after the terminal went away). Oracle: no call panics on any simulated thread; getters (position, length, message, prefix, is_finished) after every call equal the fault-free run; mp.println/mp.clear return Err iff a terminal call failed during them; afterwards every bar, sibling and the MultiProgress are exercised and dropped without panic (a poisoned lock shows there), and a println on a MultiProgress that is not hidden must make terminal calls again (no failure silences the target for good). Non-trivial: history with N >= 3 terminal calls. Distinct = distinct scenario hash; 'executions_including_sub_runs' counts the enumerated fault runs.".into()
     }
     fn assumptions(&self) -> Vec<String> {
         vec![
@@ -280,6 +282,7 @@ impl Check for C18 {
         let hh = *rng.pick(&[30, 30, 30, 1, 2, 3]);
         sc.set("h", hh);
         let max = if tier == Tier::Quick { 15 } else { 30 };
+        let is_multi = sc.c("multi") == 1;
         let ops = &mut sc.threads[0];
         // keep the creation op(s) and trim
         if ops.len() > max {
@@ -296,6 +299,15 @@ impl Check for C18 {
                 3 => Op::new("retarget_hidden").n(b),
                 _ => Op::new("suspend").n(b).n(0).s("Ux"),
             };
+            ops.insert(at.min(ops.len()), op);
+        }
+        if rng.chance(1, 60) {
+            // a text of a few hundred lines printed in one call: one frame with hundreds of
+            // terminal calls
+            let n_lines = rng.range(130, 400);
+            let text = (0..n_lines).map(|i| format!("L{i}")).collect::<Vec<_>>().join("\n");
+            let at = 1 + rng.usize_below(ops.len().max(1));
+            let op = if is_multi { Op::new("mp_println").s(text) } else { Op::new("println").n(0).n(0).s(text) };
             ops.insert(at.min(ops.len()), op);
         }
         if long_tail {
@@ -339,7 +351,9 @@ impl Check for C18 {
         let plans: Vec<(u64, u64)> = if pinned {
             vec![(sc.c("fault_k"), sc.c("fault_mode"))]
         } else {
-            (0..n).filter(|k| *k < 250 || k % 41 == 0).flat_map(|k| [(k, 0u64), (k, 1u64), (k, 2u64)]).collect()
+            // (and every flush: few calls, and the ones a frame's outcome hinges on)
+            let late: std::collections::BTreeSet<u64> = base.late_flush_idx.iter().copied().take(200).collect();
+            (0..n).filter(|k| *k < 250 || k % 41 == 0 || late.contains(k)).flat_map(|k| [(k, 0u64), (k, 1u64), (k, 2u64)]).collect()
         };
         for (k, mode) in plans {
             let plan = FaultPlan {
